@@ -6,6 +6,7 @@ import SolverzModel.Driver.C16
 import SolverzModel.Driver.C04
 import SolverzModel.Driver.C07
 import SolverzModel.Driver.C06
+import SolverzModel.Driver.C12
 open Solverz Solverz.Drv
 
 structure DState where
@@ -17,6 +18,7 @@ def stepLine (st : DState) (line : String) : DState × String :=
   | "c04" :: ws => (st, C04.step ws)
   | "c07" :: ws => (st, C07.step ws)
   | "c06" :: ws => (st, C06.step ws)
+  | "c12" :: ws => (st, C12.step ws)
   | [] => (st, "")
   | _ => (st, "bad-op")
 
